@@ -62,6 +62,8 @@ ASSUMPTIONS = [
     "all dimensions of a non-empty dataset are positive; chunk sizes positive",
     "strings contain no NUL bytes (HDF5 strings are NUL terminated)",
     "meta_prefix is '' (as in all four tasks)",
+    "a file without any recognised non-defective feature (its copy has no "
+    "events group and dclab cannot open it) is compared with raw h5py only",
     "an empty log carries no content is NOT assumed: with the proposed repair "
     "empty datasets are copied verbatim",
 ]
@@ -970,8 +972,11 @@ def compare_content(case, path_in, path_out, second=False):
                     if f not in bev_out and f not in ev_out:
                         return ("internal basin %s announces feature %s which "
                                 "is nowhere in the output" % (k, f))
-    # ---- through dclab
-    if task in ("repack", "compress"):
+        nothing_to_read = not expected and "events" not in ho
+    # ---- through dclab (a file without any recognised, non-defective feature
+    # has no events group after the copy and dclab cannot open it: there is
+    # nothing to compare beyond the raw comparison above)
+    if task in ("repack", "compress") and not nothing_to_read:
         eb = not strip_basins
         with dclab.new_dataset(path_in, enable_basins=eb) as da, \
                 dclab.new_dataset(path_out, enable_basins=eb) as db:
